@@ -828,7 +828,8 @@ class SMPose(SMUserList):
         Tprod = self.__class__._identity()  # identity value
         for T in self.data:
             Tprod = Tprod @ T
-        return self.__class__(Tprod)
+        # like the binary operator *, the product of valid values is not re-validated
+        return self.__class__(Tprod, check=False)
 
     def __pow__(self, n):
         """
